@@ -328,15 +328,15 @@ Lemma queued_unverified_pre_fix :
   let cfg := default_cfg true in
   let now := 946684800 * second in
   exists st' ef now',
-    on_frame_pre_fix cfg now model_peers 1%N (FQueued (Some unsigned_cmd) None) (mkastate Awake []) = (st', ef, now') /\
+    on_frame_pre_fix cfg now model_peers 1%N (FQueued (Some unsigned_cmd) None) (mkastate Awake [] None) = (st', ef, now') /\
     a_sleep st' = Sleeping /\ In (EState Awake Sleeping) ef /\
     verify cfg now unsigned_cmd = false.
 Proof. cbv zeta. eexists _, _, _. split; [vm_compute; reflexivity|]. vm_compute. intuition. Qed.
 
 (** the repaired handler on the same frame: nothing happens *)
 Example queued_unverified_repaired :
-  on_frame (default_cfg true) (946684800 * second) model_peers 1%N (FQueued (Some unsigned_cmd) None) (mkastate Awake [])
-  = (mkastate Awake [], [], 946684800 * second).
+  on_frame (default_cfg true) (946684800 * second) model_peers 1%N (FQueued (Some unsigned_cmd) None) (mkastate Awake [] None)
+  = (mkastate Awake [] None, [], 946684800 * second).
 Proof. vm_compute. reflexivity. Qed.
 
 (** non-vacuity: a properly signed, fresh command does take effect and is forwarded *)
@@ -345,8 +345,8 @@ Example good_command_acts :
   let cfg := default_cfg true in
   let now := 946684800 * second + 5 in
   sane cfg now /\ sane cfg (now + settle_delay KSleep) /\ wf_cmd good_cmd /\
-  on_frame cfg now model_peers 1%N (FSleep good_cmd) (mkastate Awake [])
-  = (mkastate Sleeping [mkentry 10 1 now 1], [EForward KSleep 3%N good_cmd; ECallback KSleep; EState Awake Sleeping], now + 100000000).
+  on_frame cfg now model_peers 1%N (FSleep good_cmd) (mkastate Awake [] None)
+  = (mkastate Sleeping [mkentry 10 1 now 1] None, [EForward KSleep 3%N good_cmd; ECallback KSleep; EState Awake Sleeping], now + 100000000).
 Proof. cbv zeta. unfold sane, wf_cmd. vm_compute. intuition congruence. Qed.
 
 (** ** Unforgeability as a trace hypothesis *)
@@ -368,3 +368,114 @@ Section Unforgeable.
     exists k, c. split; [exact Hin|]. split; [eapply Heuf; eauto|exact Hef].
   Qed.
 End Unforgeable.
+
+(** ** The pending wake command re-sent to peers that connect later *)
+
+Definition pending_ok (cfg : fcfg) (st : astate) : Prop :=
+  match a_pending st with
+  | Some (c, at_) => verify cfg at_ c = true
+  | None => True
+  end.
+
+Lemma on_cmd_pending_ok : forall cfg now peers from k c st st' ef now',
+  on_cmd cfg now peers from k c st = (st', ef, now') -> pending_ok cfg st -> pending_ok cfg st'.
+Proof.
+  intros cfg now peers from k c st st' ef now' H I. unfold on_cmd, on_cmd_with in H.
+  destruct (handle cfg now peers from c (a_cache st)) as [ca' r] eqn:Hh. destruct r as [tg|].
+  - destruct (mgr_apply k (a_sleep st)) as [s' efm]. injection H as Hst Hef Hnow. subst st'.
+    unfold pending_ok. cbn [a_pending]. destruct k; [exact I|].
+    eapply handle_accepts_only_verified; eassumption.
+  - injection H as Hst Hef Hnow. subst st'. exact I.
+Qed.
+
+Lemma on_frame_pending_ok : forall cfg now peers from fr st st' ef now',
+  on_frame cfg now peers from fr st = (st', ef, now') -> pending_ok cfg st -> pending_ok cfg st'.
+Proof.
+  intros cfg now peers from fr st st' ef now' H I.
+  destruct fr as [c|c|s w]; cbn [on_frame on_frame_with] in H.
+  - eapply on_cmd_pending_ok; eauto.
+  - eapply on_cmd_pending_ok; eauto.
+  - unfold on_frame, on_frame_with in H.
+    destruct s as [cs|]; destruct w as [cw|].
+    + fold (on_cmd cfg now peers from KSleep cs st) in H.
+      destruct (on_cmd cfg now peers from KSleep cs st) as [[st1 ef1] now1] eqn:H1.
+      fold (on_cmd cfg now1 peers from KWake cw st1) in H.
+      destruct (on_cmd cfg now1 peers from KWake cw st1) as [[st2 ef2] now2] eqn:H2.
+      injection H as Hst Hef Hnow. subst st'.
+      eapply on_cmd_pending_ok; [exact H2|]. eapply on_cmd_pending_ok; eauto.
+    + fold (on_cmd cfg now peers from KSleep cs st) in H.
+      destruct (on_cmd cfg now peers from KSleep cs st) as [[st1 ef1] now1] eqn:H1.
+      injection H as Hst Hef Hnow. subst st'. eapply on_cmd_pending_ok; eauto.
+    + fold (on_cmd cfg now peers from KWake cw st) in H.
+      destruct (on_cmd cfg now peers from KWake cw st) as [[st2 ef2] now2] eqn:H2.
+      injection H as Hst Hef Hnow. subst st'. eapply on_cmd_pending_ok; eauto.
+    + injection H as Hst Hnow. subst st'. exact I.
+Qed.
+
+Lemma on_peer_up_sound : forall cfg now p st st' ef,
+  on_peer_up cfg now p st = (st', ef) -> pending_ok cfg st ->
+  pending_ok cfg st' /\
+  a_sleep st' = a_sleep st /\
+  forall e, In e ef -> exists c at_, e = EForward KWake p c /\ verify cfg at_ c = true /\ now - at_ <= f_ttl cfg.
+Proof.
+  intros cfg now p st st' ef H Hp. unfold on_peer_up in H. unfold pending_ok in Hp.
+  destruct (a_pending st) as [[c at_]|] eqn:P.
+  - destruct (f_ttl cfg <? now - at_) eqn:T.
+    + injection H as <- <-. split; [exact Logic.I|]. split; [reflexivity|intros e []].
+    + apply Z.ltb_ge in T. destruct (p =? c_origin c)%N.
+      * injection H as <- <-. split; [unfold pending_ok; rewrite P; exact Hp|]. split; [reflexivity|intros e []].
+      * injection H as <- <-. split; [unfold pending_ok; rewrite P; exact Hp|]. split; [reflexivity|].
+        intros e [<-|[]]. exists c, at_. auto.
+  - injection H as <- <-. split; [unfold pending_ok; rewrite P; exact Logic.I|]. split; [reflexivity|intros e []].
+Qed.
+
+(** histories of frames and peer connections *)
+Inductive aevent := AFrame (from : N) (f : frame) | APeerUp (p : N).
+
+Fixpoint arun (cfg : fcfg) (peers : list N) (st : astate) (h : list (Z * aevent)) : list (Z * aevent * list effect) :=
+  match h with
+  | [] => []
+  | (now, AFrame from f) :: r =>
+      let '(st', ef, _) := on_frame cfg now peers from f st in (now, AFrame from f, ef) :: arun cfg peers st' r
+  | (now, APeerUp p) :: r =>
+      let '(st', ef) := on_peer_up cfg now p st in (now, APeerUp p, ef) :: arun cfg peers st' r
+  end.
+
+(** In every history that starts without a pending command, whatever is sent
+    to a newly connected peer is a wake command that verified (signature and
+    window, when a key is configured) at the instant [at_] it was accepted, at
+    most SeenCacheTTL earlier; connecting peers never change the sleep state. *)
+Theorem pending_forward_sound : forall cfg peers h st,
+  pending_ok cfg st ->
+  forall now p ef, In (now, APeerUp p, ef) (arun cfg peers st h) ->
+  forall e, In e ef -> exists c at_, e = EForward KWake p c /\ verify cfg at_ c = true /\ now - at_ <= f_ttl cfg.
+Proof.
+  intros cfg peers. induction h as [|[t ev] r IH]; intros st I now p ef Hin e He; [destruct Hin|].
+  destruct ev as [from f|q]; cbn [arun] in Hin.
+  - destruct (on_frame cfg t peers from f st) as [[st' ef'] t'] eqn:H.
+    destruct Hin as [Heq|Hin]; [discriminate|].
+    eapply IH; [|exact Hin|exact He]. eapply on_frame_pending_ok; eauto.
+  - destruct (on_peer_up cfg t q st) as [st' ef'] eqn:H.
+    destruct (on_peer_up_sound _ _ _ _ _ _ H I) as (I' & _ & Hef).
+    destruct Hin as [Heq|Hin].
+    + injection Heq as -> -> ->. apply Hef. exact He.
+    + eapply IH; [exact I'|exact Hin|exact He].
+Qed.
+
+Example pending_forward_nonvacuous :
+  let cfg := default_cfg true in
+  let t := 946684800 * second in
+  let w := mkcmd 10 7 946684800 false true [] in
+  arun cfg model_peers (mkastate Sleeping [] None)
+       [(t, AFrame 1%N (FWake w)); (t + 200 * second, APeerUp 4%N); (t + 301 * second, APeerUp 5%N)]
+  = [(t, AFrame 1%N (FWake w), [EForward KWake 2%N w; EForward KWake 3%N w; ECallback KWake; EState Sleeping Awake]);
+     (t + 200 * second, APeerUp 4%N, [EForward KWake 4%N w]);
+     (t + 301 * second, APeerUp 5%N, [])].
+Proof. vm_compute. reflexivity. Qed.
+
+Lemma verify_signature_part : forall cfg t c, f_signing cfg = true -> verify cfg t c = true ->
+  c_sigzero c = false /\ c_sigok c = true.
+Proof.
+  intros cfg t c Hs H. unfold verify, verify_with in H. rewrite Hs in H. cbn [negb] in H.
+  apply andb_true_iff in H as [H H3]. apply andb_true_iff in H as [H1 _]. apply negb_true_iff in H1. auto.
+Qed.
